@@ -341,6 +341,56 @@ def judge_rec(case):
     return None
 
 
+LEAF_NODES = {'eval': '!eval "__import__(\'vmod\').u0(%d)"', 'fstr': '!fstr "f\'{__import__(\\"vmod\\").u1(%d)}\'"', 'import': '!import vmod.u2'}
+
+
+def leaf_cases():
+    """the dynamic LEAF kinds (!eval, f-string, !import) at every origin of unsafety the property lists; the safe twin must run"""
+    out = []
+    for kind in LEAF_NODES:
+        for place in ('safe', 'mark_map', 'mark_list', 'mark_deep', 'mark_root', 'source', 'later_unsafe_stage', 'overridden_by_unsafe_stage', 'unsafe_then_safe_stage', 'unsafe_argument_of_safe_call'):
+            out.append(dict(leaf=True, kind=kind, place=place))
+    return out
+
+
+def judge_leaf(case):
+    from awesomeyaml.builder import Builder
+    from awesomeyaml.config import Config
+    install()
+    X = LEAF_NODES[case['kind']]
+    x1, x2 = (X % 1, X % 2) if '%d' in X else (X, X)
+    stages = {'safe': [('{a: {k: %s}}' % x1, True)],
+              'mark_map': [('{a: !unsafe {k: %s}}' % x1, True)],
+              'mark_list': [('{a: [1, !unsafe {k: %s}]}' % x1, True)],
+              'mark_deep': [('{a: !unsafe {m: {n: [%s]}}}' % x1, True)],
+              'mark_root': [('!unsafe {a: {k: %s}}' % x1, True)],
+              'source': [('{a: {k: %s}}' % x1, False)],
+              'later_unsafe_stage': [('{a: {j: 1}}', True), ('{a: {k: %s}}' % x1, False)],
+              'overridden_by_unsafe_stage': [('{a: {k: %s}}' % x1, True), ('{a: {k: %s}}' % x2, False)],
+              'unsafe_then_safe_stage': [('{a: {k: %s}}' % x1, False), ('{b: 1, a: {j: 2}}', True)],
+              'unsafe_argument_of_safe_call': [('{a: !call:vmod.u5 {k: !xref b.k}, b: !unsafe {k: %s}}' % x1, True)]}[case['place']]
+    del EXEC[:]
+    try:
+        b = Builder()
+        for i, (t, sf) in enumerate(stages):
+            b.add_source(t, raw_yaml=True, filename=f'<s{i}>', safe=sf)
+        cfg = Config(b.build())
+        kind = 'ok'
+    except Exception as e:
+        kind = 'EUnsafe' if evalcorr.has_unsafe_cause(e) else evalcorr.err_kind(e)
+    executed = [f for f, _, _ in EXEC]
+    if case['place'] == 'safe':
+        want = [] if case['kind'] == 'import' else ['vmod.u0' if case['kind'] == 'eval' else 'vmod.u1']
+        if kind != 'ok' or executed != want:
+            return dict(case=case, reason='control: the safe twin must evaluate (and run its code once)', got=kind, executed=executed)
+        return None
+    if executed:
+        return dict(case=case, reason='code was evaluated on behalf of an unsafe node', executed=executed)
+    if kind != 'EUnsafe':
+        return dict(case=case, reason='an unsafe %s node was evaluated: expected an UnsafeError' % case['kind'], got=kind)
+    return None
+
+
 def gen_name_case(rng):
     """a value from unsafe content read BY NAME from evaluated code (!eval, f-string), in both key orders and through a nested name"""
     mark = rng.choice(['!unsafe 2', '!unsafe {k: 2}', '!unsafe [1, 2]'])
@@ -407,6 +457,7 @@ def run(rep, tier, rng):
                 return dict(text=l, reason='expected an UnsafeError', got=r['kind'], err=r.get('err'))
         return None
     base.run_oracle(rep, 'C07', '!rec entries are loaded with their own safety', rec_cases(), judge_rec)
+    base.run_oracle(rep, 'C07', 'unsafe !eval / f-string / !import nodes are refused, whatever the origin of the unsafety', leaf_cases(), judge_leaf)
     base.run_oracle(rep, 'C07', 'unsafe data read by name from !eval / f-string code, both key orders (repaired defect)', nm, judge_names, known_sig=known_sig, show=lambda c: dict(names=True, layouts=c['layouts']))
     base.run_oracle(rep, 'C07', 'no unsafe node executed, no unsafe value passed to a call', scen, judge, known_sig=known_sig,
                     show=lambda c: dict(docs=[gen.render(d) for d in c['docs']], safes=c['safes']))
@@ -419,6 +470,10 @@ def replay(data):
         x = r['input']
         if x.get('rec') or (isinstance(x.get('case'), dict) and x['case'].get('rec')):
             f = judge_rec(x.get('case', x))
+            print('replay:', 'property FAILS' if f else 'property holds', f or '')
+            return 1 if f else 0
+        if x.get('leaf') or (isinstance(x.get('case'), dict) and x['case'].get('leaf')):
+            f = judge_leaf(x.get('case', x))
             print('replay:', 'property FAILS' if f else 'property holds', f or '')
             return 1 if f else 0
         if x.get('names'):
